@@ -415,6 +415,9 @@ func runC14(out *Out, r *Rand, tier string, replay []string) {
 				breadcrumb(line)
 			}
 			res := c14Unmarshal(data)
+			if len(data) > 4096 {
+				breadcrumb("")
+			}
 			out.Case("unmarshal", line, res, clsOf(res), len(data) >= 8)
 		case "encode":
 			segs := parseSegs(f[3])
@@ -424,6 +427,7 @@ func runC14(out *Out, r *Rand, tier string, replay []string) {
 			stream := parseBytes(f[5])
 			breadcrumb(line)
 			res := c14Decode(f[1] == "1", parseNum(f[2]), ParseInts(f[3]), strings.Split(f[4], ","), stream)
+			breadcrumb("")
 			kind := "decode"
 			if f[1] == "1" {
 				kind = "decode-packed"
